@@ -97,13 +97,15 @@ def gen_spec(rng, max_classes=7):
         # ---- bases -----------------------------------------------------------------------------
         bases = []
         for _try in range(20):
-            nb = rng.choice([0, 1, 1, 1, 2, 2, 3])
+            nb = rng.choice([0, 1, 1, 1, 2, 2, 3, 3])
             cand = list(range(NBUILTIN, cid))
             if rng.random() < 0.8:
                 cand += [0, 1, 2]
             bases = []
             seen = set()
             rng.shuffle(cand)
+            if rng.random() < 0.4:           # favour deep chains
+                cand.sort(key=lambda b: -depth_of(classes, b))
             for b in cand:
                 if len(bases) >= nb:
                     break
@@ -683,9 +685,9 @@ def plan_queries(spec, R, oracle, rng, thorough):
             if idn and idn[0] == 'lit':
                 lits.append((c['id'], 'class', x, idn[1]))
         for x, v in sorted(orc['inst_lookup'].items()):
-            if v and v[0] and v[1][0] == 'lit':
+            if v and v[1][0] == 'lit':          # instance slot, class variable, or property / descriptor getter value
                 lits.append((c['id'], 'inst', x, v[1][1]))
-    for cid, form, x, lit in (lits if thorough else rng.sample(lits, min(2, len(lits)))):
+    for cid, form, x, lit in (lits if thorough else rng.sample(lits, min(4, len(lits)))):
         reach = rng.choice(reach_forms(spec, R, cid, 'class'))
         q = make_query(R, spec, reach, form, x, 'location')
         lines = q['source'].rstrip('\n').split('\n')           # `expr.attr` -> `expr.attr.|`
@@ -1039,9 +1041,45 @@ def load_corpus():
         for f in sorted(os.listdir(d)):
             if f.endswith('.json'):
                 obj = json.load(open(os.path.join(d, f)))
-                if 'spec' in obj:
+                if 'spec' in obj and not f.startswith('known_'):
                     out.append((f, obj))
     return out
+
+
+KNOWN_ORACLE = ('import sys, importlib; sys.path.insert(0, sys.argv[1]); m = importlib.import_module(sys.argv[2]); '
+                'v = eval(sys.argv[3], vars(m)); f = getattr(v, "__func__", v); '
+                'print(f.__code__.co_filename); print(f.__code__.co_firstlineno)')
+
+
+def run_known_entries(ctx):
+    """Open findings: re-run the concrete recorded input against CPython; KNOWN-FINDING is printed only
+    when that input still fails (never for other inputs)."""
+    from supp.project import Project
+    d = os.path.join(VERIF, 'corpus', 'C06')
+    for fn in sorted(os.listdir(d)) if os.path.isdir(d) else []:
+        if not (fn.startswith('known_') and fn.endswith('.json')):
+            continue
+        e = json.load(open(os.path.join(d, fn)))
+        projdir = tempfile.mkdtemp(prefix='known_', dir=ctx.scratch)
+        write_project(projdir, e['files'])
+        env = {k: v for k, v in os.environ.items() if k != 'PYTHONPATH'}
+        env['PYTHONDONTWRITEBYTECODE'] = '1'
+        p = subprocess.run([PY, '-S', '-E', '-c', KNOWN_ORACLE, projdir, e['module'], e['expr']], stdout=subprocess.PIPE,
+                           stderr=subprocess.PIPE, text=True, timeout=60, env=env)
+        if p.returncode != 0:
+            raise RuntimeError('oracle failed on %s: %s' % (fn, p.stderr[-500:]))
+        ofile, oline = p.stdout.strip().split('\n')
+        rel = os.path.relpath(os.path.realpath(ofile), os.path.realpath(projdir))
+        text = e['files'][rel].split('\n')[int(oline) - 1]
+        expected = [rel, int(oline), text.index('def ' + e['attr']) + 4]
+        res = supp_query(Project([projdir]), projdir, e['query'])
+        ok = res[0] == 'ok' and len(res[1]) == 1 and res[1][-1] == [expected]
+        ctx.count(('known', fn), nontrivial=True)
+        ctx.histogram('known_entries', '%s:%s' % (e['id'], 'holds-now' if ok else 'still-fails'))
+        if not ok:
+            registered = any(f.get('id') == e['id'] for f in ctx.open_findings())
+            ctx.known_finding(e['id'], '%s: Python selects %s, supp answers %s%s' % (
+                e['expr'], expected, res, '' if registered else ' (entry proposed in notes/C06.md, not yet in known_findings.json)'))
 
 
 def hist_spec(ctx, spec):
@@ -1085,6 +1123,8 @@ def run(ctx):
         recs = list(ex.map(eval_hierarchy, jobs, chunksize=4))
     ctx.log('evaluated %d hierarchies (%d from corpus), %d supp queries' % (
         len(recs), ncorpus, sum(len(r['queries']) for r in recs)))
+
+    run_known_entries(ctx)
 
     # ---- direct evaluator ------------------------------------------------------------------------
     nviol = 0
